@@ -117,7 +117,10 @@ def reserved_names():
 
 
 SHORT_NAMES = ['type', 'code', 'dim', 'n', 'od', 'dims', 'desc', 't1', 'a_b',
-               'Title', 'ID', 'k', 'ns', 'io', 'me', 'ens', 'typ', 'sion']
+               'Title', 'ID', 'k', 'ns', 'io', 'me', 'ens', 'typ', 'sion',
+               # double underscores inside or at the end of a name (only a
+               # LEADING underscore marks a name the writer may skip)
+               'grid__type', 'a__b', 'trailer__', 'x__', 'cell__methods']
 
 
 @st.composite
@@ -135,7 +138,8 @@ def attr_dict(draw, pool, maxn):
             k = draw(st.text(alphabet='abcdefghijklmnopqrstuvwxyz',
                              min_size=1, max_size=6))
             if draw(st.booleans()):
-                k = k + draw(st.sampled_from(['_1', '2', '_x', 'Z']))
+                k = k + draw(st.sampled_from(['_1', '2', '_x', 'Z', '__v',
+                                              '__']))
         else:
             k = draw(st.sampled_from(pool))
         if k in reserved_names() or k.startswith('_') or k in out:
